@@ -292,6 +292,20 @@ def run(facts, tier):
     from props import c15
     c15.r15_4(facts, res, "R12-11")    # at most one document element and one document type: the refusals of XmlDocument::insert_by_id
     c14.slot_index(facts, res, "R12-12")
+    # a refused insertion leaves the refused node where it was: it may be attached (an ancestor of the receiver), and sibling
+    # navigation finds a child by its order key - clearing the key on the error path leaves an attached child with key 0
+    st13 = res.rule("R12-13", instances=0)
+    for path in ("xml_info::HasChildren::insert_before", "xml_info::HasChildren::append"):
+        g = facts.fn(path)
+        st13["instances"] += 1
+        fam = facts.family(g)
+        pieces = fam + [c for c in facts.fns.values() if c.get("parent") in {x["path"] for x in fam}]
+        bad = sorted({facts.callee_name(t["callee"]) for h in pieces for _, t in facts.mir_calls(h)
+                      if t.get("callee") and facts.callee_name(t["callee"]).split("::")[-1] in ("clear_order", "delete", "remove_from_parent")})
+        res.oblige(1, not bad)
+        if bad:
+            res.add(Finding("R12-13", path.split("::", 1)[1], "%s calls %s on the node it is inserting: when the insertion is refused the node may still be "
+                            "attached elsewhere and loses its order key (or its place) there" % (path, bad), g["file"], g["line"], {}))
     r12_7(facts, res)
     import staleidx
     staleidx.rule(facts, res, "R12-5", lambda f: f["crate"] in ("xml_info", "xml_dom"), floor=7)
